@@ -65,6 +65,15 @@ CHECKS['C06'] = dict(
          'impairment profile ranges; 1e-9 dB.',
     ref='3/C06')
 
+CHECKS['C07'] = dict(
+    technique='runtime monitor: exactly-once / no-loss checker over channel identity tuples recorded at launch, '
+              'after the band filter and after every element (depth-aware for multiband amplifiers); differential '
+              'runs with shuffled supply order; invalid-spectrum rejection',
+    text='The survivor set is computed independently from the amplifier bands of the route and compared with what '
+         'the filter keeps; the identity list must then be identical at every element and at the receiver. '
+         'Exploration over edge/gap/single-channel spectra on single-band, narrow-band and C+L networks.',
+    note='Amplifier bands read from the loaded library; routes without amplifiers not judged.', ref='3/C07')
+
 NOT_APPLICABLE = {
 }
 
